@@ -202,10 +202,13 @@ HOSTILE_TEXT = ['', ' ', 'a b', '<x>', 'a&b', '"q"', "'", 'x\ny', 'x\r\ny',
                 'x\nX-Vf-Injected: 1', 'äö', '€', 'Ж',
                 '中文', '\U0001f600', 'A' * 300, '%0d%0a', '\\n',
                 '../..', '\t', '\x7f', 'ExportIndication ', ' 2.0', '2',
-                'x\r\nSet-Cookie: a=b']
+                'x\r\nSet-Cookie: a=b', 'x\ry', '\r', 'a\rX-Vf-Injected: 1',
+                'a\x0bb', 'a\x0cb', 'x\n\ry', '\u2028', '\x85']
 BAD_VERSIONS = ['1.0', '3.0', '0.9', '', 'abc', '12.1', '20', 'v2.0',
-                '-2.0', '3.Ж', '1.€', 'x\ny']
-BAD_PROTO = ['2.0', '0.1', '', 'abc', '11.0', 'x', '9.中', 'a\nb']
+                '-2.0', '3.Ж', '1.€', 'x\ny', 'x\ry', '9\r.0', '\r',
+                '7.0\rX-Vf-Injected: 1', '8\r\n.1', '5\t.0', '6.0\x0b']
+BAD_PROTO = ['2.0', '0.1', '', 'abc', '11.0', 'x', '9.中', 'a\nb', 'a\rb',
+             '9\r.9', '\r\r']
 
 
 def gen_body(rng, req, iid):
@@ -269,6 +272,7 @@ def gen_body(rng, req, iid):
         m = rng.choice(['Foo', 'ExportIndications', 'Export', 'GetInstance',
                         'x' * 200, 'Fä', 'Ж中', 'a b', 'A&B',
                         '<m>', 'x\ny', 'x\r\nX-Vf-Injected: 1', "it's",
+                        'x\ry', 'm\rX-Vf-Injected: 1',
                         '"', '\U0001f600'])
         req.body = envelope(param(inst_xml(iid)), method=m).encode('utf-8')
         return 'unknown-export-method', {CIMERR}
